@@ -167,6 +167,19 @@ def special_designs():
             UARTMsgGenerator(dut, 'gen', tx, 16, 1, 'Hi')
             return [], [tx]
         add('UARTMsgGenerator', f, True)
+        for msg in ('A', 'xyz', 'abcd', 'hello', 'Z9'):
+            def f(hw, dut, msg=msg):
+                tx = hw.wire('tx')
+                UARTMsgGenerator(dut, 'gen', tx, 16, 1, msg)
+                return [], [tx]
+            add('UARTMsgGenerator(len %d)' % len(msg), f, True)
+        from py4hw.logic.protocol.uart.sequencer import MsgSequencer
+        for msg in ('A', 'ab', 'xyz', 'hello'):
+            def f(hw, dut, msg=msg):
+                ready = hw.wire('ready'); valid = hw.wire('valid'); v = hw.wire('v', 8)
+                MsgSequencer(dut, 'seq', ready, valid, v, msg)
+                return [ready], [valid, v]
+            add('MsgSequencer(len %d)' % len(msg), f, True)
     except Exception:
         pass
     return out
@@ -201,6 +214,8 @@ def special_design(label, f, seq):
 
 def classify(out, workload, block, mode, cfg=None):
     m = out.mismatch
+    if m.get('x_kind'):
+        return 'verilog_out_of_range_access', dict(x_kind=m['x_kind'], block=block)
     fields = dict(workload=workload, block=block, mode=mode, when=m['when'])
     if block == 'EqualConstant(out-of-range constant)' and m['width'] == 1:
         # mechanism: the structural body compares the low bits of v (Minterm), the inlined assign compares the raw v
@@ -260,6 +275,8 @@ def judge(run, des, out, workload, block, cfg, mode, case):
     run.count('output_comparisons', out.compared)
     run.count('x_skipped', out.x_skipped)
     run.count('modules_parsed', out.modules)
+    for k_, v_ in getattr(out, 'x_kinds', {}).items():
+        run.count('x_' + k_, v_)
     if out.status == 'compared':
         run.count('programs_compared')
         if out.toggled >= 1:
@@ -404,7 +421,7 @@ def _specials(run, tier, seed, shard, deadline):
         des = special_design(label, f, seq)
         n = 64 if tier == 'quick' else 300
         vecs = cosim.gen_control_vectors(des.ins, rnd, n) if seq else cosim.gen_vectors(des.ins, rnd, n, exhaustive_bits=10)
-        if label == 'UARTMsgGenerator':
+        if label.startswith('UARTMsgGenerator'):
             vecs = [{} for _ in range(600 if tier == 'quick' else 3000)]
         out = cosim.cosim(des, vecs, seq)
         judge(run, des, out, 'special', special_class(label), label, 'direct', dict(workload='special', label=label))
